@@ -5,7 +5,7 @@ argument list runs to end of line (-stdin / -transformed-by of a program start a
 FILE-CONDITION per line, reserved words are quoted when they are meant as strings, no comment lines inside
 instructions, no '#', no backslash, no quote characters inside values.
 """
-from vlib.ref.c08_symbols import str_text, use_name, ENV_PREFIX
+from vlib.ref.c08_symbols import str_text, use_name, with_leaf, ENV_PREFIX
 
 RESERVED = {'(', ')', '[', ']', '{', '}', '=', '|', ':', '!', '&&', '||', 'file', 'dir', '+='}
 _NAKED_OK = set('abcdefghijklmnopqrstuvwxyzABCDEFGHIJKLMNOPQRSTUVWXYZ0123456789_./:@[]+-,=')
@@ -141,7 +141,10 @@ def r_expr(t, e) -> str:
 def r_ts(ts) -> str:
     if ts.get('c') == 'pgm':
         return '-stdout-from ' + '\n'.join(r_program(ts['p']))
-    s = '@[%s]@' % ts['ref'] if 'ref' in ts else r_str(ts['s'])
+    if ts.get('c') == 'contents-of':
+        s = '-contents-of ' + r_path(ts['p'])
+    else:
+        s = '@[%s]@' % ts['ref'] if 'ref' in ts else r_str(ts['s'])
     if ts.get('t') is not None:
         s += ' -transformed-by ' + _operand('text-transformer', ts['t'])
     return s
@@ -266,6 +269,9 @@ def r_item(item, phase, idx):
             return v  # the instructions `%` and `$` (they take neither -stdin nor -transformed-by)
         return ['run ' + v[0]] + v[1:]
     if k == 'env':
+        if item.get('name') is not None:
+            # NAME is a STRING: always written between double quotes here (the value may contain anything)
+            return ['env "%s%s" = %s' % (ENV_PREFIX, str_text(item['name']), r_ts(item['s']))]
         return ['env %s%s = %s' % (ENV_PREFIX, use_name(phase, idx), r_ts(item['s']))]
     if k == 'stdin':
         return ['stdin = ' + r_ts(item['s'])]
@@ -273,6 +279,16 @@ def r_item(item, phase, idx):
         return ['timeout = ' + r_str(item['i'])]
     if k == 'assert':
         return _r_assert(item['t'], item['e'])
+    if k == 'fileat':
+        return ['file %s = %s' % (r_path(with_leaf(item['p'], use_name(phase, idx) + '.txt')), r_ts(item['s']))]
+    if k == 'dirat':
+        return ['dir ' + r_path(with_leaf(item['p'], use_name(phase, idx)))]
+    if k == 'from':
+        v = r_program(item['p'])
+        matcher = '  >= 0' if item['ch'] == 'exit-code' else '  ! equals "<never>"'
+        return ['%s -from %s' % (item['ch'], v[0])] + v[1:] + [matcher]
+    if k == 'nexists':
+        return ['exists ! ' + r_path(with_leaf(item['p'], use_name(phase, idx)))]
     raise ValueError(k)
 
 
@@ -305,27 +321,129 @@ def file_actor(act) -> bool:
             and act.get('t') is None)
 
 
-def render(case) -> str:
+SUITE_FILE = 'exactly.suite'
+MAIN_FILE = 't.case'
+
+
+def _suite_counts(case):
+    """phase -> number of items that are written in the suite file: the leading ones ("The section contents is included
+    before the contents of the phase of each test case"), for [cleanup] the last ones ("included after")"""
+    su = case.get('suite') or {}
+    return {ph: max(0, min(int(su.get(ph, 0)), len(case['items'].get(ph, [])))) for ph in case['items']}
+
+
+def in_suite(case, n_suite, ph, i) -> bool:
+    n = n_suite.get(ph, 0)
+    if ph == 'cleanup':
+        return i >= len(case['items'].get(ph, [])) - n
+    return i < n
+
+
+def _piece_lines(case, piece, n_suite, lo=None, hi=None, header=True, marks=True):
+    """The lines of (a part of) a piece of a phase."""
+    ph, plo, phi, first, last = piece
     lines = []
-    if file_actor(case.get('act')):
-        lines += ['[conf]', 'actor = file % {PY}', '']
-    for ph, lo, hi, first, last in pieces(case):
-        if ph == 'act':
-            if file_actor(case.get('act')):
-                args = r_list(case['act']['a'])
-                lines += ['[act]', '{PROBE} {OBS}/' + case['act']['o'] + (' ' + args if args else ''), '']
-            elif case.get('act') is not None:
-                lines.append('[act]')
-                lines.extend(r_program(case['act']))
-                lines.append('')
-            continue
+    if ph == 'act':
+        if file_actor(case.get('act')):
+            args = r_list(case['act']['a'])
+            return ['[act]', '{PROBE} {OBS}/' + case['act']['o'] + (' ' + args if args else ''), '']
+        if case.get('act') is not None:
+            return ['[act]'] + r_program(case['act']) + ['']
+        return []
+    if header:
         lines.append('[%s]' % ph)
-        if ph == 'setup' and first:
-            lines.append('$ echo %s >> {MARKERS}' % MARK_FIRST)
-        items = case['items'].get(ph, [])
-        for i in range(lo, hi):
+    items = case['items'].get(ph, [])
+    for i in range(plo if lo is None else lo, phi if hi is None else hi):
+        if not in_suite(case, n_suite, ph, i):
             lines.extend(r_item(items[i], ph, i))
+    return lines
+
+
+def render_files(case) -> dict:
+    """-> {file name: text}.  `t.case` is the test case; `exactly.suite` (same directory: the case is run as part of
+    it) holds the leading case['suite'][phase] items of the phases; case['inc'] = [{'p': piece selector, 'a': offset,
+    'b': length, 'm': 'plain'|'header'|'nested'|'absorb'}] moves a range of the items of a piece into an included file
+    (`including FILE`: "equivalent to having the contents of the included file in the including file"; 'header': the
+    included file declares the phase itself; 'nested': through a second inclusion, relative to the directory of the
+    including file; 'absorb': the included file also contains the complete following piece - another phase - of the
+    main file).  None of this changes the meaning of the case."""
+    n_suite = _suite_counts(case)
+    pcs = pieces(case)
+    files = {}
+    main = []
+    if file_actor(case.get('act')):
+        main += ['[conf]', 'actor = file % {PY}', '']
+    cands = [k for k, pc in enumerate(pcs) if pc[0] != 'act']
+    spec_of = {}
+    for sp in (case.get('inc') or []):
+        if cands:
+            spec_of.setdefault(cands[int(sp['p']) % len(cands)], sp)
+    absorbed = set()
+    n_inc = 0
+    for k, pc in enumerate(pcs):
+        if k in absorbed:
+            continue
+        ph, lo, hi, first, last = pc
+        if ph == 'act':
+            main += _piece_lines(case, pc, n_suite)
+            continue
+        sp = spec_of.get(k)
+        main.append('[%s]' % ph)
+        if ph == 'setup' and first:
+            main.append('$ echo %s >> {MARKERS}' % MARK_FIRST)
+        if sp is None:
+            main += _piece_lines(case, pc, n_suite, header=False)
+        else:
+            mode = sp.get('m', 'plain')
+            a = min(lo + max(0, int(sp.get('a', 0))), hi)
+            b = hi if mode == 'absorb' else min(a + max(0, int(sp.get('b', 1))), hi)
+            n_inc += 1
+            name = 'inc%d.xly' % n_inc
+            body = _piece_lines(case, pc, n_suite, a, b, header=(mode == 'header'))
+            tail_mark = []
+            if mode == 'absorb' and k + 1 < len(pcs):
+                if ph == 'cleanup' and last:
+                    body.append('$ echo %s >> {MARKERS}' % MARK_LAST)
+                    last = False
+                nxt = pcs[k + 1]
+                absorbed.add(k + 1)
+                body.append('')
+                body += _piece_lines(case, nxt, n_suite)
+                if nxt[0] == 'setup' and nxt[3]:
+                    body.insert(body.index('[setup]') + 1, '$ echo %s >> {MARKERS}' % MARK_FIRST)
+                if nxt[0] == 'cleanup' and nxt[4]:
+                    body.append('$ echo %s >> {MARKERS}' % MARK_LAST)
+            main += _piece_lines(case, pc, n_suite, lo, a, header=False)
+            if mode == 'nested':
+                files['d1/' + name] = 'including e/%s\n' % name
+                files['d1/e/' + name] = '\n'.join(body) + '\n'
+                main.append('including d1/' + name)
+            else:
+                files[name] = '\n'.join(body) + '\n'
+                main.append('including ' + name)
+            main += _piece_lines(case, pc, n_suite, b, hi, header=False)
         if ph == 'cleanup' and last:
-            lines.append('$ echo %s >> {MARKERS}' % MARK_LAST)
-        lines.append('')
-    return '\n'.join(lines) + '\n'
+            main.append('$ echo %s >> {MARKERS}' % MARK_LAST)
+        main.append('')
+    files[MAIN_FILE] = '\n'.join(main) + '\n'
+    if any(n_suite.values()):
+        su = []
+        for ph in [p_ for p_ in ('setup', 'before-assert', 'assert', 'cleanup') if n_suite.get(p_)]:
+            su.append('[%s]' % ph)
+            for i in range(len(case['items'][ph])):
+                if in_suite(case, n_suite, ph, i):
+                    su.extend(r_item(case['items'][ph][i], ph, i))
+            su.append('')
+        files[SUITE_FILE] = '\n'.join(su) + '\n'
+    return files
+
+
+def render(case) -> str:
+    """All files as one text: the test case, then `==> NAME` + contents for every further file (the format that
+    tools/try.py reads)."""
+    files = render_files(case)
+    out = files[MAIN_FILE]
+    for name in sorted(files):
+        if name != MAIN_FILE:
+            out += '==> %s\n%s' % (name, files[name])
+    return out
